@@ -113,6 +113,8 @@ type Sim struct {
 	quietRoot      *CReq
 	burstDone      bool
 	quietEv        *quietEvent
+	pileRID        string
+	piled          int
 	stop           *stopState
 	calm           bool
 	pendingAcc     []pendingAccess
